@@ -11,8 +11,12 @@ extern "C" {
 #include <ufw/register-protocol.h>
 }
 
+extern "C" void hm_regp_new_instance(RegP *p);   // RegP p = RP_NEW_INSTANCE; (sim/hdrmacros.c)
+extern "C" RPBlockAccess hm_block_access_init(void);
+
 namespace {
 using namespace rpref;
+static bool g_macro_init = false;   // instances, allocators and endpoints come from the headers' static initialiser macros
 
 // ------------------------------------------------------------------ wires
 struct Wire { Bytes data; size_t rpos = 0; };
@@ -41,7 +45,9 @@ struct WireSrc {
     static ssize_t chunk_cb(void *d, void *b, size_t n) { return ((WireSrc *)d)->chunk(b, n); }
     static int octet_cb(void *d, void *b) { return (int)((WireSrc *)d)->chunk(b, 1); }
     Source make() {
-        Source s; if (octet) octet_source_init(&s, octet_cb, this); else chunk_source_init(&s, chunk_cb, this);
+        Source s;
+        if (g_macro_init) s = octet ? hm_octet_source(octet_cb, this) : hm_chunk_source(chunk_cb, this);
+        else if (octet) octet_source_init(&s, octet_cb, this); else chunk_source_init(&s, chunk_cb, this);
         if (lend_win) { if (!lend_blk) lend_blk.reset(new GuardedBlock(lend_win)); s.ext.getbuffer = lend_cb; }
         return s;
     }
@@ -51,7 +57,7 @@ struct WireSnk {
     ssize_t chunk(const void *buf, size_t n) { c->step_budget(); ++calls; w->data.insert(w->data.end(), (const uint8_t *)buf, (const uint8_t *)buf + n); c->ev(EV_SNK_CALL, n, n, w->data.size()); return (ssize_t)n; }
     static ssize_t chunk_cb(void *d, const void *b, size_t n) { return ((WireSnk *)d)->chunk(b, n); }
     static int octet_cb(void *d, unsigned char ch) { return (int)((WireSnk *)d)->chunk(&ch, 1); }
-    Sink make() { Sink s; if (octet) octet_sink_init(&s, octet_cb, this); else chunk_sink_init(&s, chunk_cb, this); return s; }
+    Sink make() { Sink s; if (g_macro_init) s = octet ? hm_octet_sink(octet_cb, this) : hm_chunk_sink(chunk_cb, this); else if (octet) octet_sink_init(&s, octet_cb, this); else chunk_sink_init(&s, chunk_cb, this); return s; }
 };
 
 // ------------------------------------------------------------------ allocator ledger
@@ -88,6 +94,7 @@ struct Ledger {
     static int slab_cb(void *d, void **m) { return ((Ledger *)d)->do_alloc(m); }
     static void free_cb(void *d, void *m) { ((Ledger *)d)->do_free(m); }
     BlockAllocator make() {
+        if (g_macro_init) return slab ? hm_slab_blockalloc(this, slab_cb, free_cb, bs) : hm_generic_blockalloc(this, generic_cb, free_cb, bs);   // MAKE_SLAB_BLOCKALLOC / MAKE_GENERIC_BLOCKALLOC
         BlockAllocator a; memset(&a, 0, sizeof a);
         a.type = slab ? UFW_ALLOC_SLAB : UFW_ALLOC_GENERIC; a.blocksize = bs; a.driver = this;
         if (slab) a.alloc.slab = slab_cb; else a.alloc.generic = generic_cb;
@@ -145,7 +152,7 @@ struct Node {
         led.c = &ctx; led.bs = block; led.slab = slab; ba = led.make();
         be.c = &ctx; be.led = &led; be.ws = memtype == 16 ? 2 : 1;
         memset(&mf, 0, sizeof mf);
-        regp_init(&p);
+        if (g_macro_init) { memset(&p, 0xa5, sizeof p); hm_regp_new_instance(&p); COUNT("probe.instance_from_RP_NEW_INSTANCE"); } else regp_init(&p);
         reconfigure(0);
     }
     // (re-)apply the effective configuration, optionally after a history of other settings (instances get re-configured;
@@ -334,7 +341,7 @@ struct RegpHarness : Harness {
         if (prop == "C06" && block < (int64_t)minblock + 40) block = (int64_t)minblock + 40 + r.range(0, 60);
         const bool bigblock = (prop == "C09" || prop == "C06") && r.chance(1, 150);   // rarely a block around / above 64 KiB (sizes and counts that do not fit 16 bits)
         if (bigblock) { static const int64_t BB[] = {65535, 65536, 65537, 65552, 70000, 131072, 131080, 196700}; block = (int64_t)sizeof(RPFrame) + BB[r.below(8)]; }
-        p["block"] = (long long)block;
+        p["block"] = (long long)block; if (r.chance(1, 3)) p["macro_init"] = 1;
         if (r.chance(1, 4)) p["lend"] = (long long)(r.chance(1, 3) ? r.range(1, 6) : (r.chance(1, 2) ? r.range(7, 40) : r.range(41, 400)));   // the channel sources implement the getbuffer extension
         const size_t room = (size_t)block - sizeof(RPFrame);
         p["seq0"] = (long long)(r.chance(1, 3) ? 0xfff0 + r.below(16) : r.below(65536));
@@ -477,6 +484,7 @@ struct RegpHarness : Harness {
     // ------------------------------------------------------------ execution
     struct Cfg { bool serial; int mt; size_t block; bool slab, so, ko; uint16_t seq0; bool recycle; unsigned confhist; };
     static Cfg cfg_of(const Json &plan) {
+        g_macro_init = plan.geti("macro_init") != 0; g_bind_with_macros = false;
         { int64_t l = plan.geti("lend"); if (l < 0) l = 0; if (l > 4096) l = 4096; g_lend = (size_t)l; }
         Cfg c; c.serial = plan.geti("serial") != 0; c.mt = plan.geti("mt", 16) == 8 ? 8 : 16;
         int64_t b = plan.geti("block", 128); if (b < (int64_t)sizeof(RPFrame) + 1) b = (int64_t)sizeof(RPFrame) + 1; if (b > 400000) b = 400000; c.block = (size_t)b;
